@@ -553,15 +553,105 @@ func (g *gen) lookup(name string) *varInfo {
 	panic("lookup " + name)
 }
 
-// closeFrame inserts uses for the unused variables declared in ss's frame.
-// Insertions go right after the declaration (so they are in scope and before
-// any terminating statement).
+// exprReads: the expression mentions the variable
+func exprReads(e *Expr, name string) bool {
+	if e == nil {
+		return false
+	}
+	if e.Op == "var" && e.Name == name {
+		return true
+	}
+	for _, a := range e.Args {
+		if exprReads(a, name) {
+			return true
+		}
+	}
+	return false
+}
+
+// stmtsRead reports whether the statements surely read the variable (a
+// conservative answer: scanning a list stops at a declaration of the same name;
+// raw statements are not inspected). Assignments to the variable itself do not
+// count; assignments through it (fields, elements) read it.
+func stmtsRead(ss []*Stmt, name string) bool {
+	for _, s := range ss {
+		switch s.Op {
+		case "define", "var":
+			if exprReads(s.E, name) {
+				return true
+			}
+			if s.Name == name {
+				return false
+			}
+		case "define2":
+			if exprReads(s.E, name) {
+				return true
+			}
+			if s.Name == name || s.Name2 == name {
+				return false
+			}
+		case "assign", "opassign", "incdec":
+			if exprReads(s.E, name) {
+				return true
+			}
+			if s.Lhs != nil && s.Lhs.Op != "var" && exprReads(s.Lhs, name) {
+				return true
+			}
+		case "expr":
+			if exprReads(s.E, name) {
+				return true
+			}
+		case "return":
+			for _, e := range s.Es {
+				if exprReads(e, name) {
+					return true
+				}
+			}
+		case "if":
+			if exprReads(s.E, name) || stmtsRead(s.Body, name) || stmtsRead(s.Else, name) {
+				return true
+			}
+		case "block":
+			if stmtsRead(s.Body, name) {
+				return true
+			}
+		case "for":
+			if s.Init != nil && s.Init.Name == name {
+				if exprReads(s.Init.E, name) {
+					return true
+				}
+				continue // the loop variable hides it inside the loop
+			}
+			if (s.Init != nil && exprReads(s.Init.E, name)) || exprReads(s.E, name) || (s.Post != nil && stmtsRead([]*Stmt{s.Post}, name)) || stmtsRead(s.Body, name) {
+				return true
+			}
+		case "rangeslice", "rangemap":
+			if exprReads(s.E, name) {
+				return true
+			}
+			if s.Name == name || s.Name2 == name {
+				continue
+			}
+			if stmtsRead(s.Body, name) {
+				return true
+			}
+		}
+	}
+	return false
+}
+
+// closeFrame inserts uses for the variables declared in ss's frame that the
+// following statements do not read. Insertions go right after the declaration
+// (so they are in scope and before any terminating statement).
 func (g *gen) closeFrame(ss []*Stmt) []*Stmt {
 	f := g.frames[len(g.frames)-1]
 	// insert from the last declaration backwards so indices stay valid
 	for j := len(f) - 1; j >= 0; j-- {
 		v := f[j]
-		if v.used || v.declIdx < 0 {
+		if v.declIdx < 0 || v.declIdx >= len(ss) {
+			continue
+		}
+		if stmtsRead(ss[v.declIdx+1:], v.name) {
 			continue
 		}
 		u := g.useStmt(v)
@@ -778,6 +868,10 @@ func (g *gen) stmt1(u usage, depth int, ss *[]*Stmt, results []*Type) *Stmt {
 		switch g.r.Intn(20) {
 		case 0, 1, 2:
 			// x := e (immutable binding)
+			name := g.fresh(true)
+			if g.inCurrentFrame(name) {
+				continue
+			}
 			t := g.scalarType()
 			if g.cfg.Strings && g.r.Intn(8) == 0 {
 				t = TStr
@@ -790,26 +884,27 @@ func (g *gen) stmt1(u usage, depth int, ss *[]*Stmt, results []*Type) *Stmt {
 				case t.K == KBool:
 					e = g.ncb(e)
 				default:
-					continue // a constant string would be fine for Go but has no typed form
+					// a constant string has no typed form: use it through a concatenation with a variable if there is one
+					e = Bin("+", TStr, e, g.strLit())
+					t = TStr
 				}
 			}
-			name := g.fresh(true)
-			if g.inCurrentFrame(name) {
-				continue
+			if g.isConst(e) && t.K == KStr {
+				e = &Expr{Op: "conv", T: TStr, Name: "string", Args: []*Expr{e}}
 			}
 			v := g.newVar(name, t, false, ss)
 			g.declare(v)
 			return &Stmt{Op: "define", Name: name, E: e}
 		case 3, 4:
 			// var x T [= e]
+			name := g.fresh(true)
+			if g.inCurrentFrame(name) {
+				continue
+			}
 			t := g.scalarType()
 			var e *Expr
 			if g.r.Intn(4) != 0 {
 				e = g.expr(t, g.cfg.MaxDepth)
-			}
-			name := g.fresh(true)
-			if g.inCurrentFrame(name) {
-				continue
 			}
 			v := g.newVar(name, t, true, ss)
 			g.declare(v)
@@ -1089,7 +1184,12 @@ func (g *gen) structStmt(ss *[]*Stmt) *Stmt {
 			}
 		}
 		name := g.fresh(false)
-		switch g.r.Intn(3) {
+		switch g.r.Intn(4) {
+		case 3:
+			// the struct is mentioned in a type annotation only
+			v := g.newVar(name, st, true, ss)
+			g.declare(v)
+			return &Stmt{Op: "var", Name: name, T: st}
 		case 0:
 			v := g.newVar(name, PtrTo(st), false, ss)
 			g.declare(v)
@@ -1111,7 +1211,8 @@ func (g *gen) structStmt(ss *[]*Stmt) *Stmt {
 	}
 	f := rng.Pick(g.r, g.structByName(st.Name).Fields)
 	g.deps[st.Name] = true
-	lhs := &Expr{Op: "field", T: f.T, Name: f.Name, Args: []*Expr{Var(v)}}
+	// an assignment to a field does not count as a use of the variable
+	lhs := &Expr{Op: "field", T: f.T, Name: f.Name, Args: []*Expr{{Op: "var", T: v.t, Name: v.name}}}
 	if f.T.K == KU64 && g.r.Intn(3) == 0 {
 		return &Stmt{Op: "opassign", Lhs: lhs, Tok: rng.Pick(g.r, []string{"+=", "-=", "|=", "&=", "^="}), E: g.expr(f.T, g.cfg.MaxDepth-1)}
 	}
